@@ -29,6 +29,7 @@ type Engine struct {
 	pkgs    []*packages.Package
 	spkgs   []*ssa.Package
 	loadMs  int64
+	only    string
 }
 
 func loadEngine(repo, verif string) (*Engine, error) {
@@ -134,6 +135,9 @@ type groupResult struct {
 	Semantics string   `json:"semantics,omitempty"`
 	obls      []*Obligation
 	frameFn   *ssa.Function
+	// concrete witness (a Go test replayed on the real code)
+	replayFile string
+	reproduced bool
 }
 
 type knownFinding struct {
@@ -342,7 +346,18 @@ func runCheck(prop, repo, verif, tier, only string, updateBaseline, verbose, noE
 		}
 	}
 	// built-in (non-contract) checks for the property
+	e.only = only
 	extra := builtinChecks(e, prop, tier)
+	if only != "" {
+		// a focused run keeps only the built-in results it names
+		var keep []*groupResult
+		for _, g := range extra {
+			if strings.Contains(g.Name, only) || !strings.HasPrefix(g.Name, "witness.") {
+				keep = append(keep, g)
+			}
+		}
+		extra = keep
+	}
 
 	finalizeNames(x.obls)
 	timeout := 20 * time.Second
